@@ -64,6 +64,7 @@ Conf_BeginExact == obs.kind = "Begin" => LET e == BeginExpect(obs.n, obs.badpos)
 Clauses == {"C15_StartsAtFinalized", "C15_AlongHeadParents", "C15_WellFormed", "C15_WithinLimits", "C15_CollapsesOnDivergence",
             "C15_PowerTableCIDs", "C15_SupplementalCommitsNext", "C15_CommitteeFromFinality", "C15_CommitteeSameAcrossNodes",
             "C15_ParticipantBoundsChain", "Conf_ProposalExact", "Conf_CommitteeExact", "Conf_BeginExact"}
+PropClauses == Clauses \ {"Conf_ProposalExact", "Conf_CommitteeExact", "Conf_BeginExact"}
 Holds(x) == CASE x = "C15_StartsAtFinalized" -> C15_StartsAtFinalized [] x = "C15_AlongHeadParents" -> C15_AlongHeadParents
               [] x = "C15_WellFormed" -> C15_WellFormed [] x = "C15_WithinLimits" -> C15_WithinLimits
               [] x = "C15_CollapsesOnDivergence" -> C15_CollapsesOnDivergence [] x = "C15_PowerTableCIDs" -> C15_PowerTableCIDs
@@ -76,6 +77,8 @@ Holds(x) == CASE x = "C15_StartsAtFinalized" -> C15_StartsAtFinalized [] x = "C1
 TStep == /\ TNext
          /\ LET nb == {x \in Clauses : ~Holds(x)} IN
               /\ bad' = bad \cup {<<l - 1, x>> : x \in nb}
-              /\ (nb = {} \/ Cardinality(bad) > 40 \/ PrintT(<<"VERIF_BAD", l - 1, nb>>))
+              \* print at most ~40 failing lines, but never let conformance failures hide a property clause
+              /\ (nb = {} \/ (Cardinality(bad) > 40 /\ (nb \cap PropClauses = {} \/ Cardinality({b \in bad : b[2] \in PropClauses}) > 40))
+                          \/ \A x \in nb : PrintT(<<"VERIF_BAD", l - 1, {x}>>))      \* one short line per clause (TLC wraps long values)
 TSpec == TInit /\ [][TStep]_tvars
 =============================================================================
